@@ -1,4 +1,4 @@
-import BqVerif.Proofs.CrashDown
+import BqVerif.Proofs.CrashAll
 /-
 C14 - a crashed worker or manager unblocks every waiting client with an error.
 
@@ -9,6 +9,11 @@ All theorems quantify over ARBITRARY reachable states, topologies (`Topo.WF`) an
 crashes), by induction over the transition function.
 
 `Reach t s`: `s` is reachable from the initial state by any list of transitions.
+
+(Until `fix:` 856c0e9 a manager that lost its boss only unregistered the connection and kept
+running with its workers; the model had that behaviour and the kernel-checked witness
+`C14_orphan_submanager_witness`.  Now `Manager.handle_disconnect` shuts the manager down and
+`C14_runtime_stops` proves the full statement: EVERY node stops.)
 
 (Until `fix:` 9e98cc2 the outgoing thread reacted to a failed send by running
 `handle_disconnect` itself; `handle_shutdown` then died in `self.outgoing_thread.join()` and
@@ -156,8 +161,8 @@ theorem C14_clients_unblocked {t : Topo} (wf : t.WF) {s sf : State} (hs : Reach 
   · obtain ⟨s', a, _, e, _⟩ := h2 hw r hr
     exact ⟨s', a, e⟩
 
-/-- **SHUTDOWN reaches the employees** (the partial form of "the rest of the runtime shuts
-down"; the full form fails for sub-managers of a *crashed* manager, see the witness below).
+/-- **SHUTDOWN reaches the employees** (one hop of "the rest of the runtime shuts down"; the
+whole statement with its bound is `C14_runtime_stops`).
 Whenever a node `p` has stopped (it ran `handle_shutdown`) and its employee `e` is still alive
 and running, a SHUTDOWN is pending in `e`'s channel from `p`, and `e`'s reader of that channel
 (`Worker.recv_incoming` / the manager's run loop on `upstream`) is enabled; reading SHUTDOWN
@@ -180,6 +185,83 @@ theorem C14_shutdown_reaches_employees {t : Topo} (wf : t.WF) {s : State} (hs : 
   · have : s.gone e = true := x
     rw [he] at this; cases this
   · exact ⟨x, reader_enabled hen he0 he x y⟩
+
+/-- the downward bound is explicit: pending messages from the boss plus 2 per live node -/
+theorem C14_down_bound_explicit (t : Topo) (s : State) :
+    dpotential t s ≤ sumMap (fun i => (s.inbox i).length + 2) (List.range t.n) := by
+  unfold dpotential
+  exact sumMap_le0 _ (fun i => dweight_le t s i)
+
+/-- **the whole runtime stops** (both directions, with the bound).  `d` a crashed (or otherwise
+gone) worker or manager.  Critical deliveries are now of two kinds: *upwards* (`isCrit`: a live
+boss reads the connection of a gone employee on the path from `d` to the server) and *downwards*
+(`isDownCrit`: a live node reads the connection of its gone boss - it finds the pending
+messages, then SHUTDOWN or EOF, and stops: workers since ever, managers since `fix:` 856c0e9).
+Total potential `T(s) = potential t s d + dpotential t s` (pending messages on the path + 3 per
+level, plus for every live node the messages pending from its boss + 2).  Along ANY schedule:
+(a) `T(final) + #critical ≤ T(s) + growth` (growth = ordinary traffic live nodes still push along
+    those channels);
+(b) as long as any node of the runtime - server, manager or worker, in the subtree of the crashed
+    node or anywhere else - is still alive and running, a critical delivery is enabled;
+(c) when the potential is used up (`T(final) = 0`; in particular once `T(s) + growth` critical
+    deliveries happened) EVERY node is gone: the server stopped and closed all clients
+    (`ShutDone`), every manager stopped, every worker killed itself.
+So the number of critical deliveries any schedule can take is bounded by (a), and by (b) a
+schedule that has not finished the shutdown always has one more to take.  (`T = 0` is sufficient,
+not necessary: a SHUTDOWN written to a boss that is already gone stays in the pipe forever.) -/
+theorem C14_runtime_stops {t : Topo} (wf : t.WF) {s sf : State} (hs : Reach t s) {d : Nat}
+    (hd0 : d ≠ 0) (hdn : d < t.n) (hg : s.gone d = true) (ls : List Label) {c g : Nat}
+    (h : runCountAll t d s ls = some (sf, c, g)) :
+    potential t sf d + dpotential t sf + c ≤ potential t s d + dpotential t s + g ∧
+    (∀ n, n < t.n → sf.gone n = false → ∃ l s', step t sf l = some s' ∧
+        (isCrit t sf d l || isDownCrit t sf l) = true) ∧
+    (potential t sf d + dpotential t sf = 0 →
+        (∀ n, n < t.n → sf.gone n = true) ∧ ShutDone t sf 0) ∧
+    (potential t s d + dpotential t s + g ≤ c → potential t sf d + dpotential t sf = 0) := by
+  obtain ⟨hb, hi, hgone, _⟩ := runCountAll_bound wf d ls s sf c g (hs.inv wf) h
+  have hprog : ∀ n, n < t.n → sf.gone n = false → ∃ l s', step t sf l = some s' ∧
+      (isCrit t sf d l || isDownCrit t sf l) = true := by
+    intro n hn hgn
+    cases h0 : sf.gone 0 with
+    | false =>
+      obtain ⟨p, e, s', hst, hcr⟩ := progress wf hi hd0 hdn (hgone d hg) h0
+      exact ⟨_, s', hst, by simp [hcr]⟩
+    | true =>
+      have hn0 : n ≠ 0 := by intro x; subst x; rw [h0] at hgn; cases hgn
+      obtain ⟨l, s', hst, hcr⟩ := progress_down wf hi h0 hn hn0 hgn
+      exact ⟨l, s', hst, by simp [hcr]⟩
+  refine ⟨hb, hprog, fun hz => ?_, fun hmax => by omega⟩
+  have hall : ∀ n, n < t.n → sf.gone n = true := by
+    intro n hn
+    cases hgn : sf.gone n with
+    | true => rfl
+    | false =>
+      exfalso
+      obtain ⟨l, s', hst, hcr⟩ := hprog n hn hgn
+      have h1 := potential_step d hst
+      have h2 := dpotential_step wf hi hst
+      simp only [Bool.or_eq_true] at hcr
+      rcases hcr with x | x
+      · rw [x] at h1
+        have hgr : growth t sf d l = 0 := by
+          cases l <;> simp [isCrit] at x <;> rfl
+        simp only [b2n, if_true] at h1
+        omega
+      · rw [x] at h2
+        have hgr : downGrowth t sf l = 0 := by
+          cases l <;> simp [isDownCrit] at x <;> rfl
+        simp only [b2n, if_true] at h2
+        omega
+  refine ⟨hall, ?_⟩
+  have h0 := hall 0 (by omega)
+  have hsrv := hi.srv
+  simp only [State.view] at hsrv
+  have hr : sf.running 0 = false := by
+    unfold State.gone at h0
+    simp only [hsrv, Bool.not_true, Bool.false_or, Bool.not_eq_true'] at h0
+    exact h0
+  obtain ⟨h1, h2, h3⟩ := down_facts hi hr
+  exact ⟨hr, h1, h2, h3⟩
 
 /-- **a second crash changes nothing**: it keeps the invariant, does not raise the bound of
 the reaction to the first crash, and touches nothing a client or the server's tables can
@@ -301,25 +383,23 @@ def okRun : List Label :=
 example : (run (Topo.ofList [(0, 0), (0, 2)] true) init okRun).map (fun s => (s.clog, s.completed)) =
     some ([.returned 0 (.result 0 7)], [(0, 7)]) := by decide
 
-/-! ### the code's defects, as kernel-checked witnesses -/
+/-! ### non-vacuity of `C14_runtime_stops`: server 0 - manager 1 - manager 2 - worker 3, the mid
+manager is killed (the scenario of the former orphan finding) -/
 
-/-- **orphaned sub-managers (finding).**  server 0 - manager 1 - manager 2 - worker 3.  Manager 1
-is killed.  The server reacts (clients are unblocked), but manager 2 sees EOF on its upstream
-connection, only unregisters it and keeps running with its worker: nobody ever sends them
-SHUTDOWN. -/
-def orphanTopo : Topo := Topo.ofList [(0, 0), (0, 1), (1, 1), (2, 2)] false
+def deepTopo : Topo := Topo.ofList [(0, 0), (0, 1), (1, 1), (2, 2)] false
 
-def orphanRun : List Label := [.crash 1 false, .recvEmp 0 1 [] false, .recvUp 2 [] false]
+def deepCrashed : State := (run deepTopo init [.crash 1 false]).getD init
 
-def orphanState : State := (run orphanTopo init orphanRun).getD init
+/-- the server reads the EOF, manager 2 reads the EOF of its dead boss and stops (856c0e9),
+worker 3 obeys the SHUTDOWN -/
+def deepReact : List Label := [.recvEmp 0 1 [] false, .recvUp 2 [] false, .wrecv 3]
 
-theorem C14_orphan_submanager_witness :
-    (run orphanTopo init orphanRun).isSome = true ∧
-    orphanState.running 0 = false ∧ orphanState.copen 0 = false ∧
-    orphanState.alive 2 = true ∧ orphanState.running 2 = true ∧ orphanState.alive 3 = true ∧
-    orphanState.sentShutdown 2 = false ∧ orphanState.sentShutdown 3 = false ∧
-    orphanState.inbox 2 = [] ∧ orphanState.inbox 3 = [] ∧
-    (step orphanTopo orphanState (.recvUp 2 [] false)).isNone = true ∧
-    (step orphanTopo orphanState (.wrecv 3)).isNone = true := by decide
+example : deepCrashed.gone 1 = true ∧ potential deepTopo deepCrashed 1 + dpotential deepTopo deepCrashed = 4 := by
+  decide
+example : (runCountAll deepTopo 1 deepCrashed deepReact).map (fun r => (r.2.1, r.2.2)) = some (3, 0) := by
+  decide
+example : (runCountAll deepTopo 1 deepCrashed deepReact).map
+    (fun r => (r.1.gone 0 && r.1.gone 2 && r.1.gone 3 && !(r.1.copen 0),
+      potential deepTopo r.1 1 + dpotential deepTopo r.1)) = some (true, 0) := by decide
 
 end BqVerif.Crash
